@@ -136,6 +136,15 @@ def run(check):
             steps.append(Step("loop2", "foreach", sub=sub, items=[{"tag": Expr(In("tag"))}]))
             outs["success"]["d2"] = Expr(Ref("loop2", "outputs", "success", "data"))
         gs.append({"program": Program(steps, outs, gen.BASE_INPUT), "shape": "foreach-legacy-output-sub"})
+    # loops over a sub-workflow that declares several outputs of different shapes (only `success` is what the loop collects)
+    for k in range(check.pick(4, 20)):
+        rng = random.Random(derive_seed(check.seed, "c16-multi-out", k))
+        sub = gen.sub_program("sub.yaml", rng.choice([1, 2]), with_error_output=rng.random() < 0.5, other_output=rng.choice(["stopped", "partial", "a_first"]))
+        if rng.random() < 0.5:
+            sub.outputs["zz_more"] = {"k": 3, "who": Expr(In("tag"))}
+        steps = [Step("loop", "foreach", sub=sub, items=Expr(In("items")), parallelism=rng.choice([1, 2]))]
+        outs = {"success": {"d": Expr(Ref("loop", "outputs", "success", "data"))}, "failed": {"e": Expr(Ref("loop", "failed", "error"))}}
+        gs.append({"program": Program(steps, outs, gen.BASE_INPUT), "shape": "foreach-sub-with-several-outputs"})
     items, idx = [], 0
     for gi, g in enumerate(gs):
         prog = g["program"]
@@ -153,8 +162,49 @@ def run(check):
                 case["extra"] = {"reps": 5, "share_registry": True}
             idx += 1
             items.append((case, gi, vname, mm))
+    # history: text A, then an unrelated text B (e.g. with a step that has no cancellation handler), then A again, all through one
+    # step registry: both preparations of A must agree in verdict and form
+    hist = []
+    for k in range(check.pick(12, 80)):
+        rng = random.Random(derive_seed(check.seed, "c16-hist", k))
+        a1 = gen.plugin_step("a", Expr(In("tag")))
+        a2 = gen.plugin_step("b", gen.tagref("a"), stop_if=Expr(Ref("a", "outputs", "error")))
+        pa = Program([a1, a2], {"success": {"b": gen.tagref("b")}}, gen.BASE_INPUT)
+        if k % 3 == 0:
+            h = gen.plugin_step("h", Expr(In("tag")), schema="nocancel")
+            pb = Program([h], {"success": {"h": gen.tagref("h")}}, gen.BASE_INPUT)
+            scripts = {"h": {"schema": "nocancel"}}
+            what = "step-without-cancel-handler"
+        else:
+            gb = gs[rng.randrange(len(gs))]
+            pb, scripts, what = gb["program"], {}, gb["shape"]
+        if k % 2:
+            pa, pb = pb, pa  # also the other way round
+        seq = [{"files": pa.files(), "input": None}, {"files": pb.files(), "input": None}, {"files": pa.files(), "input": None}]
+        hist.append(({"id": "c16-h%04d" % k, "mode": "seq", "files": {}, "scripts": scripts, "runs": [], "extra": {"sequence": seq}, "no_events": True}, what))
     with harness.Runner(instrument=False) as rn:
         out = rn.run_cases([c for c, _g, _v, _m in items], per_case_timeout=120)
+        hout = rn.run_cases([c for c, _w in hist], per_case_timeout=120)
+    for case, what in hist:
+        o = hout.get(case["id"], {})
+        check.count()
+        if "result" not in o:
+            check.inconclusive_case(case["id"], str(o.get("death", {}).get("key")))
+            continue
+        runs = o["result"].get("runs") or []
+        forms = (o["result"].get("extra") or {}).get("forms") or []
+        if len(runs) < 3:
+            check.inconclusive_case(case["id"], "sequence incomplete")
+            continue
+        v0 = runs[0].get("err_type") if runs[0].get("err_type") in ("parse", "prepare") else "accepted"
+        v2 = runs[2].get("err_type") if runs[2].get("err_type") in ("parse", "prepare") else "accepted"
+        if v0 != v2:
+            check.report("verdict@depends-on-history", "text prepared, then another text (%s), then the first again through one step registry: verdicts %s and %s (%s)" % (
+                what, v0, v2, (runs[2].get("err") or runs[0].get("err") or "")[:200]), {"case": case})
+        elif v0 == "accepted" and len(forms) >= 3 and normalise(forms[0]) != normalise(forms[2]):
+            check.report("form@depends-on-history", "text prepared, then another text (%s), then the first again through one step registry: the two prepared forms differ" % what, {"case": case})
+        else:
+            check.nontrivial("history|%s" % what)
     base = {}
     stats = {"preparations": 0, "programs": len(gs), "variants_compared": 0, "max_distinct_forms_per_text": 0}
     for case, gi, vname, mm in items:
